@@ -309,6 +309,61 @@ func ruleBackup(c *Ctx) {
 			}
 		})
 	}
+	// every copy of database files runs with the database lock held: it is not reachable from Backup
+	// without passing through the db.View/db.Update call
+	isTxCall := func(ci ssa.CallInstruction) bool {
+		cc := ci.Common()
+		return (calleeIs(cc, modPath, "DB", "View") || calleeIs(cc, modPath, "DB", "Update")) && ci.Parent() == bk
+	}
+	txClosures := map[*ssa.Function]bool{}
+	calls(bk, func(ci ssa.CallInstruction) {
+		if !isTxCall(ci) || !sameValue(capturedParam(ci.Common().Args[0]), bk.Params[0]) {
+			return
+		}
+		for _, a := range ci.Common().Args[1:] {
+			if mc, ok := a.(*ssa.MakeClosure); ok {
+				if fn, ok := mc.Fn.(*ssa.Function); ok {
+					txClosures[fn] = true
+				}
+			}
+		}
+	})
+	outside := map[*ssa.Function]bool{bk: true}
+	for work := []*ssa.Function{bk}; len(work) > 0; {
+		f := work[len(work)-1]
+		work = work[:len(work)-1]
+		var next []*ssa.Function
+		for _, an := range f.AnonFuncs {
+			if !txClosures[an] {
+				next = append(next, an)
+			}
+		}
+		if n := c.P.CG.Nodes[f]; n != nil {
+			for _, e := range n.Out {
+				if e.Site != nil && isTxCall(e.Site) {
+					continue
+				}
+				next = append(next, e.Callee.Func)
+			}
+		}
+		for _, g := range next {
+			if !outside[g] {
+				outside[g] = true
+				work = append(work, g)
+			}
+		}
+	}
+	nOut := 0
+	for i, cs := range copySites {
+		if outside[cs.Parent()] {
+			nOut++
+			c.bad(fnName(bk), fmt.Sprintf("file copy #%d (%s) runs inside a transaction on the same DB", i+1, calleeName(cs.Common())), c.P.ipos(cs),
+				"database files are copied outside db.View/db.Update: a commit (and a segment rotation) can land between this copy and the rest of the backup, so the copy is a state the database never had")
+		}
+	}
+	if nOut > 0 {
+		return
+	}
 	if len(copySites) != 1 {
 		c.undecided(fnName(bk), "copy call", "", fmt.Sprintf("expected exactly one directory-copy call in the cone of Backup, found %d", len(copySites)))
 		return
@@ -316,23 +371,7 @@ func ruleBackup(c *Ctx) {
 	cs := copySites[0]
 	c.touch(copyFn)
 	// (1) the copy runs inside a function literal passed to db.View / db.Update on the same db (lock held)
-	inTx := false
-	if copyFn.Parent() == bk {
-		calls(bk, func(ci ssa.CallInstruction) {
-			cc := ci.Common()
-			if !(calleeIs(cc, modPath, "DB", "View") || calleeIs(cc, modPath, "DB", "Update")) {
-				return
-			}
-			if !sameValue(capturedParam(cc.Args[0]), bk.Params[0]) {
-				return
-			}
-			for _, a := range cc.Args[1:] {
-				if mc, ok := a.(*ssa.MakeClosure); ok && mc.Fn == ssa.Value(copyFn) {
-					inTx = true
-				}
-			}
-		})
-	}
+	inTx := len(txClosures) > 0 && !outside[copyFn]
 	c.check(inTx, fnName(bk), "directory copy runs inside a transaction on the same DB", c.P.ipos(cs), "the copy is the body of a function passed to db.View/db.Update, so the database lock is held for its whole duration", "the directory copy is not inside db.View/db.Update: a commit can land between the first and the last file copied")
 	// (2) the source is Options.Dir of the same db
 	src := cs.Common().Args[0]
